@@ -368,7 +368,8 @@ def import_histories(tier):
     out = [[a] for a in items]
     out += [[a, b] for a in items for b in items]
     out += [[("pe", "small"), a, ("pe", "small2")] for a in items]
-    return out
+    # the ELF can only be loaded once per Vm (preload_elf knows no load base, so it cannot be mapped elsewhere)
+    return [h for h in out if sum(1 for k, _ in h if k == "elf") <= 1]
 
 
 _IMG_CACHE = {}
